@@ -490,3 +490,38 @@ def first_diff(a: Any, b: Any, path: str = '') -> Optional[str]:
 def json_short(v: Any) -> str:
     import json
     return json.dumps(v, default=str)[:300]
+
+
+def uncanon(c: Any) -> Any:
+    """inverse of `canon` (used by replay)"""
+    from xmlschema.dataobjects import DataElement
+    if c is None:
+        return None
+    if 'a' in c:
+        k, v = c['a']
+        if k == 's':
+            return v
+        if k == 'i':
+            return int(v)
+        if k == 'b':
+            return v == 'true'
+        if k == 'd':
+            return Decimal(v)
+        if k == 'f':
+            return float(v)
+        return v
+    if 'l' in c:
+        return [uncanon(x) for x in c['l']]
+    if 'd' in c:
+        return {k: uncanon(v) for k, v in c['d']}
+    if 'e' in c:
+        e = c['e']
+        de = DataElement(e['tag'], uncanon(e['value']), {k: uncanon(v) for k, v in e['attrib']},
+                         xmlns=[tuple(p) for p in e['xmlns']] or None)
+        for k in e['kids']:
+            de.append(uncanon(k))
+        t = uncanon(e['tail'])
+        if t is not None:
+            de.tail = t
+        return de
+    return c
